@@ -132,12 +132,18 @@ def isSimpleTargetPart : Node → Bool
   | .other "ThisExpression" _ _ [] => true   -- `ThisExpr` has no children
   | _ => false
 
+def seqOperand (x : Node) : Node :=
+  match x with
+  | .seq _ _ => Node.paren x x.span
+  | _ => x
+
 /-- `hoist_target_part`: `(t = e)` for the target, `t` for reading back -/
 def hoistTargetPart (e : Node) (sp : Span) : M (Node × Node) := do
-  let (id, asg) ← getTemporalIdent e [] sp .expr
+  -- a sequence used as a key keeps its own grouping when it is assigned
+  let (id, asg) ← getTemporalIdent (seqOperand e) [] sp .expr
   match id, asg.getLast? with
   | some n, some a => pure (.paren a sp, tempIdent n)
-  | _, _ => pure (e, e)
+  | _, _ => pure (seqOperand e, seqOperand e)
 
 /-- `split_computed_key` -/
 def splitComputedKey (csp : Span) (e : Node) (sp : Span) : M (Node × Node) := do
